@@ -1053,6 +1053,10 @@ func vhWellFormed(v vhreflect.Value, path string) string {
 		return ""
 	}
 	switch typ.Kind() {
+	case vhreflect.Float32, vhreflect.Float64:
+		if f := v.Float(); vhmath.IsNaN(f) || vhmath.IsInf(f, 0) {
+			return vhfmt.Sprintf("%s: %v is not a finite number (it has no JSON form)", path, f)
+		}
 	case vhreflect.Interface:
 		if v.IsNil() {
 			return path + ": nil union value"
